@@ -130,6 +130,12 @@ second paragraph after a blank line */
     #[derive(TS)]
     #[ts(export_to = "shared.ts")]
     pub struct N { pub n: i32 }
+    #[derive(TS)]
+    #[ts(export_to = "shared.ts")]
+    pub struct ZB {
+        /// see export type B for the alias (a FIELD doc that names another declaration of the same file)
+        pub z: i32,
+    }
     /// Größe in Metern — naïve, ≤ 3 ✓ (documentation that is not ASCII: characters and bytes differ)
     #[derive(TS)]
     #[ts(export_to = "shared.ts")]
@@ -222,7 +228,7 @@ fn export_step(kind: &str, ty: &str, dir: Option<&str>) -> Result<(), String> {
         "export_all_to" => <$t>::export_all_to(dir.unwrap()),
         _ => panic!("unknown step kind"),
     } } }
-    let r = match ty { "A" => go!(hist::A), "B" => go!(hist::B), "C" => go!(hist::C), "D" => go!(hist::D), "M" => go!(hist::M), "N" => go!(hist::N), "AL" => go!(hist::AL), "RS" => go!(hist::RS), "VA" => go!(hist::VA), "IR" => go!(hist::IR), "CA" => go!(hist::CA), "CB" => go!(hist::CB), "Q" => go!(hist::Q), "DM" => go!(hist::DM), "UN" => go!(hist::UN), "Pair" => go!(hist::Pair<i32>), "Pair2" => go!(hist::Pair2), "Pair3" => go!(hist::Pair3), "GR" => go!(hist::GR<Vec<hist::P2>>), "Z" => go!(hist::Z), "W1" => go!(hist::W1), "W2" => go!(hist::W2), "P1" => go!(hist::P1), "P2" => go!(hist::P2), "P3" => go!(hist::P3), _ => panic!("unknown type") };
+    let r = match ty { "A" => go!(hist::A), "B" => go!(hist::B), "C" => go!(hist::C), "D" => go!(hist::D), "M" => go!(hist::M), "N" => go!(hist::N), "AL" => go!(hist::AL), "RS" => go!(hist::RS), "VA" => go!(hist::VA), "IR" => go!(hist::IR), "CA" => go!(hist::CA), "CB" => go!(hist::CB), "Q" => go!(hist::Q), "DM" => go!(hist::DM), "ZB" => go!(hist::ZB), "UN" => go!(hist::UN), "Pair" => go!(hist::Pair<i32>), "Pair2" => go!(hist::Pair2), "Pair3" => go!(hist::Pair3), "GR" => go!(hist::GR<Vec<hist::P2>>), "Z" => go!(hist::Z), "W1" => go!(hist::W1), "W2" => go!(hist::W2), "P1" => go!(hist::P1), "P2" => go!(hist::P2), "P3" => go!(hist::P3), _ => panic!("unknown type") };
     r.map_err(|e| format!("{e:?}"))
 }
 
